@@ -514,6 +514,10 @@ func generate(family string, rng *rand.Rand, thorough bool) []plan {
 			}
 			add(plan{stage: &Stage{Kind: "emit", N: rng.Intn(4), Freq: freq, A: 2, B: 1}, sched: &scripted{script: sc}, maxMoves: 40, drain: true, gen: "keeps-up"})
 			add(plan{stage: &Stage{Kind: "unfold", N: rng.Intn(4), Seed: rng.Intn(5), A: rng.Intn(2) + 1, B: rng.Intn(3) + 1}, sched: rnd(0, 0, 5, wc, 0, 0, nil), maxMoves: 30, drain: true, gen: "random"})
+			if rep%4 == 0 {
+				// under Try a failing step is reported and the sequence goes on from what the function returned (zero)
+				add(plan{stage: &Stage{Kind: "unfold", N: rng.Intn(3), Seed: 1 + rng.Intn(3), A: 1, B: 1, Fail: &Fail{Kind: "in", Xs: []int{rng.Intn(4) + 2}}, Try: true}, sched: rnd(0, 0, 4, wc, 0, 0, nil), maxMoves: 30, drain: true, gen: "random"})
+			}
 			// absent consumer: a few receives (or none), cancel, and nobody receives again
 			ucap := rng.Intn(3)
 			var ab []intent
